@@ -58,13 +58,15 @@ namespace Givaro {
     // --------------------
     // ----- Initialisation de Modular<double>
 
+    // (explicit specialisations of  template<typename T> Element& init(Element&, T):  T is deduced WITHOUT top-level
+    //  const / reference, so the specialisations must be written for int64_t, uint64_t, Integer, double, float)
     template<>
     template<>
     inline
     typename ModularExtended<double>::Element&
-    ModularExtended<double>::init<const int64_t> (Element& x, const int64_t y) const
+    ModularExtended<double>::init<int64_t> (Element& x, const int64_t y) const
     {
-        x = static_cast<Element>(std::abs(y) % _lp);
+        x = static_cast<Element>(std::abs(y % static_cast<int64_t>(_lp)));
         if (y < 0) negin(x);
         return x;
     }
@@ -73,7 +75,7 @@ namespace Givaro {
     template<>
     inline
     typename ModularExtended<double>::Element&
-    ModularExtended<double>::init<const uint64_t> (Element& x, const uint64_t y) const
+    ModularExtended<double>::init<uint64_t> (Element& x, const uint64_t y) const
     {
         return x = static_cast<Element>(y % (uint64_t)(_lp));
     }
@@ -82,7 +84,7 @@ namespace Givaro {
     template<>
     inline
     typename ModularExtended<double>::Element&
-    ModularExtended<double>::init<const Integer &> (Element& x, const Integer& y) const
+    ModularExtended<double>::init<Integer> (Element& x, const Integer y) const
     {
         x = static_cast<Element>(y % _lp);
         if (x < 0) x += _p;
@@ -93,9 +95,20 @@ namespace Givaro {
     template<>
     inline
     typename ModularExtended<double>::Element&
-    ModularExtended<double>::init<const typename ModularExtended<double>::Element &> (Element& x, const Element& y) const
+    ModularExtended<double>::init<double> (Element& x, const double y) const
     {
-        return x = y;
+        x = std::fmod(y, _p);
+        if (x < 0) x += _p;
+        return x;
+    }
+
+    template<>
+    template<>
+    inline
+    typename ModularExtended<double>::Element&
+    ModularExtended<double>::init<float> (Element& x, const float y) const
+    {
+        return init(x, static_cast<double>(y));
     }
 
     // --------------------
@@ -110,6 +123,15 @@ namespace Givaro {
         r = static_cast<float>(std::fmod(a, _p));
         if (r < 0.f) r += _p;
         return r;
+    }
+
+    template<>
+    template<>
+    inline
+    typename ModularExtended<float>::Element&
+    ModularExtended<float>::init(typename ModularExtended<float>::Element& r, const float a) const
+    {
+        return init(r, static_cast<double>(a));
     }
 
     template<>
@@ -156,10 +178,10 @@ namespace Givaro {
     template<>
     inline
     typename ModularExtended<float>::Element&
-    ModularExtended<float>::init(typename ModularExtended<float>::Element& r, const Integer& a) const
+    ModularExtended<float>::init(typename ModularExtended<float>::Element& r, const Integer a) const
     {
         r = static_cast<Element>(a % _lp);
-        if (a < 0) negin(r);
+        if (r < 0) r += _p;
         return r;
     }
 
